@@ -1245,7 +1245,7 @@ func (pa *PanicAudit) checkTreeInvariant() {
 			}
 			writers++
 			val := unwrap(ci.Common().Args[len(ci.Common().Args)-1])
-			if f != gu || val != ssa.Value(gu.Params[1]) {
+			if !pa.isGuNotification(gu, f, val, 0) {
 				ok = false
 			}
 		}
@@ -1259,6 +1259,48 @@ func (pa *PanicAudit) checkTreeInvariant() {
 		}
 	}
 	pa.treeInv = ok && writers >= 2 && hasReq
+}
+
+// isGuNotification: val, in function f, is gnmiUpdate's own notification parameter - directly, or as a
+// parameter of an unexported helper that every call site in package cache fills with it.
+func (pa *PanicAudit) isGuNotification(gu, f *ssa.Function, val ssa.Value, d int) bool {
+	if gu == nil || d > 4 {
+		return false
+	}
+	if f == gu {
+		return val == ssa.Value(gu.Params[1])
+	}
+	pp, ok := val.(*ssa.Parameter)
+	if !ok || f.Parent() != nil || isExportedFn(f) {
+		return false
+	}
+	idx := -1
+	for i, q := range f.Params {
+		if q == pp {
+			idx = i
+		}
+	}
+	if idx < 0 {
+		return false
+	}
+	sites := 0
+	for _, g := range pa.P.PkgFuncs("cache") {
+		if pa.P.InTestFile(g) {
+			continue
+		}
+		for _, h := range withAnon(g) {
+			for _, ci := range callsIn(h) {
+				if staticCallee(ci.Common()) != f || idx >= len(ci.Common().Args) {
+					continue
+				}
+				sites++
+				if !pa.isGuNotification(gu, h, unwrap(ci.Common().Args[idx]), d+1) {
+					return false
+				}
+			}
+		}
+	}
+	return sites > 0
 }
 
 // Report turns sites into obligations.
@@ -1545,6 +1587,16 @@ func sliceOfKeys(s ssa.Value, m string, fn *ssa.Function, seen map[ssa.Value]boo
 				}
 			}
 			return true
+		}
+		// slices.Sorted(maps.Keys(m)) / slices.Collect(maps.Keys(m)): by contract the keys of m
+		if g := staticCallee(&x.Call); g != nil && pkgPathOf(g) == "slices" && len(x.Call.Args) == 1 &&
+			(strings.HasPrefix(g.Name(), "Sorted") || strings.HasPrefix(g.Name(), "Collect")) {
+			if it, ok := x.Call.Args[0].(*ssa.Call); ok && len(it.Call.Args) == 1 {
+				if h := staticCallee(&it.Call); h != nil && pkgPathOf(h) == "maps" && strings.HasPrefix(h.Name(), "Keys") {
+					return pkey(it.Call.Args[0]) == m
+				}
+			}
+			return false
 		}
 		// helper(m) returning the keys of its parameter
 		if g := staticCallee(&x.Call); g != nil && g.Pkg == fn.Pkg && len(g.Blocks) > 0 {
